@@ -402,20 +402,43 @@ def check_function(repo, fn: FuncInfo, descriptor_attrs: Optional[Dict[str, Set[
             if norm(rk) != norm(key):
                 problems.append(Problem(fn, rd, short(rd), f"{desc}: looked up under `{norm(rk)}` but stored under `{norm(key)}`"))
 
-    # (3) lazily filled slots
+    # (3) lazily filled slots:  if self._s is None [or self._s[0] != key_param ...]: ... self._s = V | (key_param, V)
     if selfname:
+        def _is_none_test(t):
+            return isinstance(t, ast.Compare) and len(t.ops) == 1 and isinstance(t.ops[0], ast.Is) and is_attr_of(t.left, selfname) \
+                and isinstance(t.comparators[0], ast.Constant) and t.comparators[0].value is None
+
         for n in walk_local(fn.node):
-            if isinstance(n, ast.If) and isinstance(n.test, ast.Compare) and len(n.test.ops) == 1 and isinstance(n.test.ops[0], ast.Is) \
-                    and is_attr_of(n.test.left, selfname) and isinstance(n.test.comparators[0], ast.Constant) and n.test.comparators[0].value is None:
-                slot = n.test.left.attr
-                for b in n.body:
-                    for x in ast.walk(b):
-                        if isinstance(x, ast.Assign) and any(is_attr_of(t, selfname, slot) for t in x.targets):
-                            roots = dep_roots(fn, x.value, {id(x)})
-                            desc = f"lazy slot self.{slot} in {fn.qualname}"
-                            sites.append(Site(fn, "slot", desc, x))
-                            # key-less: no parameter may influence it
-                            classify_roots(roots, set(), "slot", desc, x, short(x), slot=slot)
+            if not isinstance(n, ast.If):
+                continue
+            tests = n.test.values if isinstance(n.test, ast.BoolOp) and isinstance(n.test.op, ast.Or) else [n.test]
+            if not tests or not _is_none_test(tests[0]):
+                continue
+            slot = tests[0].left.attr
+            key_params: Dict[int, str] = {}  # tuple position -> parameter compared with self._slot[pos]
+            for t in tests[1:]:
+                if isinstance(t, ast.Compare) and len(t.ops) == 1 and isinstance(t.ops[0], ast.NotEq) and isinstance(t.left, ast.Subscript) \
+                        and is_attr_of(t.left.value, selfname, slot) and isinstance(t.left.slice, ast.Constant) and isinstance(t.comparators[0], ast.Name):
+                    key_params[t.left.slice.value] = t.comparators[0].id
+            for b in n.body:
+                for x in ast.walk(b):
+                    if isinstance(x, ast.Assign) and any(is_attr_of(t, selfname, slot) for t in x.targets):
+                        desc = f"lazy slot self.{slot} in {fn.qualname}"
+                        sites.append(Site(fn, "slot", desc, x))
+                        val = x.value
+                        kroots: Set[str] = set()
+                        if key_params:
+                            if not (isinstance(val, ast.Tuple) and all(pos < len(val.elts) and isinstance(val.elts[pos], ast.Name) and val.elts[pos].id == p for pos, p in key_params.items())):
+                                problems.append(Problem(fn, x, short(x), f"{desc}: the guard compares self.{slot}[i] with {sorted(key_params.values())} but the stored tuple does not carry those parameters at those positions"))
+                                continue
+                            kroots = {f"param:{p}" for p in key_params.values()}
+                            rest = [e for i, e in enumerate(val.elts) if i not in key_params]
+                            roots = set()
+                            for e in rest:
+                                roots |= dep_roots(fn, e, {id(x)})
+                        else:
+                            roots = dep_roots(fn, val, {id(x)})
+                        classify_roots(roots, kroots, "slot", desc, x, short(x), slot=slot)
     return sites, problems
 
 
